@@ -1,13 +1,22 @@
 #!/bin/bash
-# tools/run_seed.sh <PROP>-<k> [tier] [extra check args]: apply a seeded change to /repo, run the property's check, restore /repo
+# tools/run_seed.sh <PROP>-<k> [tier] [extra check args]
+# Runs the property's check against a scratch worktree of /repo HEAD with the seeded change applied
+# (VERIF_REPO selects the tree, VERIF_OUT keeps evidence/replays of the run out of /verif), records the
+# outcome in seeded/<seed>/meta.json and removes the worktree.  Equivalent to
+#   git -C /repo apply seeded/<seed>/patch.diff; ./check <PROP>; git -C /repo checkout -- .
+# but several seeds can run at once and /repo is never touched.
 set -u
 seed=$1; tier=${2:-quick}; shift; shift
 prop=${seed%%-*}
+wt=/tmp/sr-$seed; out=/tmp/sr-$seed.out
+git -C /repo worktree remove --force $wt 2>/dev/null
+git -C /repo worktree add -q --detach $wt HEAD || exit 2
+( cd $wt && git apply /verif/seeded/$seed/patch.diff ) || { echo "SEED $seed: patch does not apply"; git -C /repo worktree remove --force $wt; exit 2; }
+mkdir -p $out
 cd /verif
-if [ -n "$(git -C /repo status --porcelain --untracked-files=no)" ]; then echo "repo dirty"; exit 2; fi
-git -C /repo apply /verif/seeded/$seed/patch.diff || { echo "SEED $seed: patch does not apply"; exit 2; }
-./check $prop --tier $tier "$@" > /tmp/seedrun-$seed.log 2>&1; rc=$?
-git -C /repo checkout -- .
+VERIF_REPO=$wt VERIF_OUT=$out ./check $prop --tier $tier "$@" > /tmp/seedrun-$seed.log 2>&1; rc=$?
+git -C /repo worktree remove --force $wt
+rm -rf $out
 python3 - "$seed" "$tier" "$rc" <<'PY'
 import json,sys,re
 seed,tier,rc=sys.argv[1:4]
@@ -15,7 +24,7 @@ mp=f'/verif/seeded/{seed}/meta.json'; m=json.load(open(mp))
 log=open(f'/tmp/seedrun-{seed}.log').read()
 cex=[l.strip()[:240] for l in log.splitlines() if l.strip().startswith('counterexample')][:3]
 d=m.get('detected_by') or {}
-d[tier]={'detected': rc=='1', 'exit': int(rc), 'first_counterexamples': cex, 'cmd': f'git -C /repo apply seeded/{seed}/patch.diff; ./check {seed.split("-")[0]} --tier {tier}; git -C /repo checkout -- .'}
+d[tier]={'detected': rc=='1', 'exit': int(rc), 'first_counterexamples': cex, 'cmd': f'tools/run_seed.sh {seed} {tier}  (scratch worktree of /repo HEAD + patch.diff; VERIF_REPO=<worktree> ./check {seed.split("-")[0]} --tier {tier})'}
 m['detected_by']=d
 json.dump(m,open(mp,'w'),indent=1)
 PY
